@@ -737,6 +737,105 @@ def generate(repo):
            'def q2dSumM1Correction : List (Int × Int × Int × Int × Int × Int) :=\n'
            '  [(1, 2, 2, 5, 0, 3), (1, 2, 2, 5, 1, 3), (1, 2, 2, 5, 0, 3), (1, 2, 2, 5, 1, 3)]')
 
+    # ---- no state that outlives a call in the polynomial modules, other than functools caches of hashable scalars
+    def no_state_between_calls():
+        """True iff, in every prysm/polynomials/*.py:  no `id(...)` call;  no `is` / `is not` between two non-constant expressions;
+        no `global` / `nonlocal`;  and no function stores anything that depends on one of its parameters into state that outlives the
+        call (a module-level container, a function attribute, a mutable default argument) unless it is a table store `T[key] = value`
+        whose key mentions every parameter the value depends on by VALUE (not through id(), .shape, .ndim, len())."""
+        import glob
+        import os
+        ok = True
+        for path in sorted(glob.glob(os.path.join(repo, 'prysm', 'polynomials', '*.py'))):
+            mod = ast.parse(open(path).read())
+            top = set()
+            for st in mod.body:
+                if isinstance(st, (ast.Assign, ast.AnnAssign, ast.AugAssign)):
+                    for t in (st.targets if isinstance(st, ast.Assign) else [st.target]):
+                        top |= {n.id for n in ast.walk(t) if isinstance(n, ast.Name)}
+            funcs = {f.name for f in ast.walk(mod) if isinstance(f, (ast.FunctionDef, ast.AsyncFunctionDef))}
+            for fn in [f for f in ast.walk(mod) if isinstance(f, (ast.FunctionDef, ast.AsyncFunctionDef))]:
+                params = {a.arg for a in fn.args.args + fn.args.kwonlyargs + fn.args.posonlyargs}
+                if fn.args.vararg:
+                    params.add(fn.args.vararg.arg)
+                if fn.args.kwarg:
+                    params.add(fn.args.kwarg.arg)
+                mutable_defaults = set()
+                pos = fn.args.posonlyargs + fn.args.args
+                for a, d in list(zip(pos[len(pos) - len(fn.args.defaults):], fn.args.defaults)) + \
+                        [(a, d) for a, d in zip(fn.args.kwonlyargs, fn.args.kw_defaults) if d is not None]:
+                    if isinstance(d, (ast.List, ast.Dict, ast.Set, ast.ListComp, ast.DictComp)) or \
+                            (isinstance(d, ast.Call) and ast.unparse(d.func).split('.')[-1] in ('dict', 'list', 'set', 'defaultdict', 'OrderedDict')):
+                        mutable_defaults.add(a.arg)
+                # which parameters does each local depend on (fixpoint over the assignments of the body)
+                deps = {q: {q} for q in params}
+
+                def dep(e):
+                    out = set()
+                    for n in ast.walk(e):
+                        if isinstance(n, ast.Name):
+                            out |= deps.get(n.id, set())
+                    return out
+                for _ in range(6):
+                    for n in ast.walk(fn):
+                        if isinstance(n, (ast.Assign, ast.AugAssign, ast.AnnAssign)) and getattr(n, 'value', None) is not None:
+                            for t in (n.targets if isinstance(n, ast.Assign) else [n.target]):
+                                for nm in [q for q in ast.walk(t) if isinstance(q, ast.Name) and isinstance(q.ctx, ast.Store)]:
+                                    deps[nm.id] = deps.get(nm.id, set()) | dep(n.value)
+                        elif isinstance(n, ast.For):
+                            for nm in [q for q in ast.walk(n.target) if isinstance(q, ast.Name)]:
+                                deps[nm.id] = deps.get(nm.id, set()) | dep(n.iter)
+
+                def by_value(key):
+                    """parameters the key expression mentions by value: not under id(), len(), .shape, .ndim, .size"""
+                    hidden = set()
+                    for n in ast.walk(key):
+                        if isinstance(n, ast.Call) and ast.unparse(n.func) in ('id', 'len'):
+                            hidden |= {id(q) for a in n.args for q in ast.walk(a)}
+                        if isinstance(n, ast.Attribute) and n.attr in ('shape', 'ndim', 'size'):
+                            hidden |= {id(q) for q in ast.walk(n.value)}
+                    out = set()
+                    for n in ast.walk(key):
+                        if isinstance(n, ast.Name) and id(n) not in hidden:
+                            out |= deps.get(n.id, set())
+                    return out
+
+                def lasting(root):
+                    return isinstance(root, ast.Name) and ((root.id in top and root.id not in params and root.id not in
+                                                            {q for q in deps if q not in params and q not in top})
+                                                           or root.id in funcs or root.id in mutable_defaults)
+                for n in ast.walk(fn):
+                    if isinstance(n, (ast.Global, ast.Nonlocal)):
+                        ok = False
+                    if isinstance(n, ast.Call) and ast.unparse(n.func) == 'id':
+                        ok = False
+                    if isinstance(n, ast.Compare) and any(isinstance(o, (ast.Is, ast.IsNot)) for o in n.ops):
+                        if not any(isinstance(o, ast.Constant) for o in [n.left] + n.comparators):
+                            ok = False
+                    if isinstance(n, (ast.Assign, ast.AugAssign)):
+                        for t in (n.targets if isinstance(n, ast.Assign) else [n.target]):
+                            for el in (t.elts if isinstance(t, (ast.Tuple, ast.List)) else [t]):
+                                if not isinstance(el, (ast.Subscript, ast.Attribute)):
+                                    continue
+                                root = el
+                                while isinstance(root, (ast.Subscript, ast.Attribute)):
+                                    root = root.value
+                                if not lasting(root) or not dep(n.value) | (dep(el.slice) if isinstance(el, ast.Subscript) else set()):
+                                    continue
+                                table = isinstance(el, ast.Subscript) and not isinstance(el.slice, ast.Slice) and isinstance(n, ast.Assign)
+                                if not (table and dep(n.value) <= by_value(el.slice)):
+                                    ok = False
+                    if isinstance(n, ast.Call) and isinstance(n.func, ast.Attribute) and \
+                            n.func.attr in ('append', 'extend', 'update', 'setdefault', 'insert', 'add', 'appendleft', '__setitem__'):
+                        root = n.func.value
+                        while isinstance(root, (ast.Subscript, ast.Attribute)):
+                            root = root.value
+                        if lasting(root) and set().union(*[dep(a) for a in n.args], *[dep(k.value) for k in n.keywords]):
+                            if not (n.func.attr in ('setdefault', '__setitem__') and len(n.args) == 2 and dep(n.args[1]) <= by_value(n.args[0])):
+                                ok = False
+        return ok
+    g.fact('polynomialsKeepNoStateBetweenCalls', 'prysm/polynomials/*.py', no_state_between_calls)
+
     return g.finish()
 
 
